@@ -319,14 +319,18 @@ def interAll (r : Val → Val → Bool) : List Val → Nat → List Val → List
 /-- Go: `ExceptIter.Next`: right keys are counted — **and the `nil` row returned together with
 `io.EOF` is hashed too**, i.e. the key of the empty row gets count 1 (`phantom v` = "v's key is
 the key of the empty row"); a left row is dropped while its key's count is positive. -/
-def exceptAll (r : Val → Val → Bool) (phantom : Val → Bool) : List Val → Nat → List Val → Bool → List (Nat × Val)
-  | [], _, _, _ => []
-  | v :: vs, i, ys, ph =>
+def exceptAll (r : Val → Val → Bool) (phantom : Val → Bool) : List (Nat × Val) → List Val → Bool → List (Nat × Val)
+  | [], _, _ => []
+  | (i, v) :: vs, ys, ph =>
     match removeFirst r v ys with
-    | some ys' => exceptAll r phantom vs (i + 1) ys' ph
+    | some ys' => exceptAll r phantom vs ys' ph
     | none =>
-      if ph && phantom v then exceptAll r phantom vs (i + 1) ys false
-      else (i, v) :: exceptAll r phantom vs (i + 1) ys ph
+      if ph && phantom v then exceptAll r phantom vs ys false
+      else (i, v) :: exceptAll r phantom vs ys ph
+
+/-- Go: `NewDistinctIter` under a child: the rows that pass, with their positions. -/
+def dedup (r : Val → Val → Bool) (xs : List Val) : List (Nat × Val) :=
+  (firstOcc r xs).filterMap fun i => (xs[i]?).map fun v => (i, v)
 
 /-- The Distinct node that sits on top of a non-ALL set operation. -/
 def distinctOf (r : Val → Val → Bool) (rows : List (Nat × Val)) : List Nat :=
@@ -352,5 +356,218 @@ def inSub (k : Val → Val → Bool) (m : Val → Val → Bool) (ys : List Val) 
 def joinPairs (k : Val → Val → Bool) (m : Val → Val → Bool) (xs ys : List Val) : List (Nat × Nat) :=
   (xs.zipIdx).flatMap fun (x, i) =>
     (ys.zipIdx).filterMap fun (y, j) => if k x y && m x y then some (i, j) else none
+
+/-! ## Scenarios: which key each operator uses on which values
+
+A case is an operator, the column types of the two inputs (`lt` for table t1 / the probed side,
+`rt` for table t2 / the list or subquery side) and the stored values. -/
+
+inductive ColTy where
+  | int            -- INT
+  | dec (s : Nat)  -- DECIMAL(12,s)
+  | strBin         -- VARCHAR(20) COLLATE utf8mb4_0900_bin
+  | strCi          -- VARCHAR(20) COLLATE <the case's collation>
+  deriving DecidableEq, Repr, Inhabited
+
+inductive Op where
+  | groupBy | distinct | countDistinct | union | intersect | except | inList | inSub | hashJoin
+  deriving DecidableEq, Repr, Inhabited
+
+def Op.name : Op → String
+  | .groupBy => "groupby" | .distinct => "distinct" | .countDistinct => "countdistinct"
+  | .union => "union" | .intersect => "intersect" | .except => "except"
+  | .inList => "inlist" | .inSub => "insub" | .hashJoin => "hashjoin"
+
+/-- Does the operator's call of `hash.HashOf` pass the schema (call-site fact, regenerated)?
+`none`: the operator does not call `HashOf` on its values. -/
+def Op.schemaSupplied : Op → Option Bool
+  | .groupBy => some true      -- rowexec/agg.go groupingKey: HashOf(ctx, i.keySch, i.keyRow)
+  | .distinct => some false    -- plan/distinct.go DistinctHasher.HashOf: HashOf(ctx, nil, row)
+  | .union => some false       -- the Distinct node on top of the set operation
+  | .intersect => some false   -- iters/rel_iters.go IntersectIter.Next: HashOf(ctx, nil, res)
+  | .except => some false      -- iters/rel_iters.go ExceptIter.Next: HashOf(ctx, nil, res)
+  | .inSub => some true        -- plan/insubquery.go: HashOf(ctx, Schema{rTyp}, row); subquery.go putAllRows: HashOf(ctx, sch, …)
+  | .countDistinct => none     -- unary_agg_buffers.go: own text key
+  | .inList => none            -- expression/in.go: HashOfSimple
+  | .hashJoin => none          -- plan/hash_lookup.go: HashOfSimple for single-column keys
+
+/-- The two collations of a case: the one of `strCi` columns and utf8mb4_0900_bin (also the
+collation of the LongText compare type of IN lists). -/
+structure Env where
+  ci : Coll
+  bin : Coll
+
+def Env.collOf (e : Env) : ColTy → Option Coll
+  | .strBin => some e.bin
+  | .strCi => some e.ci
+  | _ => none
+
+/-- The collation `=` uses between the two sides (both sides have the same string type). -/
+def Env.cmpColl (e : Env) (lt : ColTy) : Coll := (e.collOf lt).getD e.bin
+
+/-- A value of a column of type `mine` after UNION [ALL] / INTERSECT / EXCEPT unified it with a
+column of type `other`: INT next to DECIMAL becomes a scale-0 decimal, everything else is passed
+through unchanged (in particular decimals keep their own scale). -/
+def arrive (other mine : ColTy) (v : Val) : Val :=
+  match mine, other, v with
+  | .int, .dec _, .int i => .dec i 0
+  | _, _, v => v
+
+/-- Go: `rTyp.Convert(left)` in `InSubquery.Eval` (exact conversions only). -/
+def convTo (rt : ColTy) (v : Val) : Val :=
+  match rt, v with
+  | .dec s, .int i => .dec (i * (pow10 s : Nat)) s
+  | .dec s, .dec c s' => if s' ≤ s then .dec (c * (pow10 (s - s') : Nat)) s else .dec c s'
+  | _, v => v
+
+/-- Go: `types.GetCompareType(lType, right[0].Type())` in `newInMap`, and
+`GetCompareType(leftKeyType, rightKeyType)` for the hash join. -/
+def cmpTyOf (e : Env) (lt : ColTy) (other : Option ColTy) (first : Val) : CmpTy :=
+  match lt with
+  | .strBin => if other == some .strBin then .text e.bin else .text e.bin
+  | .strCi => if other == some .strCi then .text e.ci else .text e.bin
+  | .dec _ => .decimal
+  | .int =>
+    match other, first with
+    | some (.dec _), _ => .decimal
+    | none, .dec _ _ => .decimal
+    | _, _ => .int64
+
+def keyEq (a b : Option (List Nat)) : Bool := a.isSome && a == b
+
+/-- The relations of one case: `k` = "same key" (Impl), `s` = what the property demands. -/
+structure Rels where
+  k : Val → Val → Bool
+  s : Val → Val → Bool
+
+def hashOfRel (sch : Option Coll) (a b : Val) : Bool := keyEq (elemKey sch a) (elemKey sch b)
+
+def relsOf (e : Env) (op : Op) (lt rt : ColTy) (ys : List Val) : Rels :=
+  let c := e.cmpColl lt
+  match op with
+  | .groupBy => ⟨hashOfRel (e.collOf lt), same c⟩
+  | .distinct | .union | .intersect | .except => ⟨hashOfRel none, same c⟩
+  | .countDistinct => ⟨fun a b => countDistinctKey [a] == countDistinctKey [b], same c⟩
+  | .inList =>
+    let t := cmpTyOf e lt none (ys.headD .null)
+    ⟨fun a b => keyEq (simpleKey t a) (simpleKey t b), mtch c⟩
+  -- NULL on either side never reaches the key lookup (`leftNull` is returned early; `inSub` skips NULL right values)
+  | .inSub => ⟨fun a b => a != .null && b != .null && hashOfRel (e.collOf rt) a b, mtch c⟩
+  | .hashJoin =>
+    let t := cmpTyOf e lt (some rt) .null
+    ⟨fun a b => keyEq (simpleKey t a) (simpleKey t b), mtch c⟩
+
+/-- Position of the first element identical to the `i`-th (observations identify rows by value). -/
+def canonPos (l : List Val) (i : Nat) : Nat :=
+  match l[i]? with
+  | some v => (l.findIdx? (· == v)).getD i
+  | none => i
+
+/-- A structured observation. -/
+inductive Obs where
+  | pairs (l : List (Nat × Nat))
+  | nats (l : List Nat)
+  | num (n : Nat)
+  deriving DecidableEq, Repr, Inhabited
+
+def showNats (l : List Nat) : String := " ".intercalate (l.map toString)
+def showPairs (l : List (Nat × Nat)) : String :=
+  " ".intercalate (l.map fun p => "(" ++ toString p.1 ++ " " ++ toString p.2 ++ ")")
+
+def Obs.render : Obs → String
+  | .pairs l => showPairs l
+  | .nats l => showNats l
+  | .num n => toString n
+
+def insertNat (x : Nat) : List Nat → List Nat
+  | [] => [x]
+  | y :: ys => if x ≤ y then x :: y :: ys else y :: insertNat x ys
+
+def sortNats (l : List Nat) : List Nat := l.foldr insertNat []
+
+/-- The two inputs as they reach the operator. -/
+def inputs (op : Op) (lt rt : ColTy) (xs ys : List Val) : List Val × List Val :=
+  match op with
+  | .inList | .hashJoin => (xs, ys)
+  | .inSub => (xs.map (convTo rt), ys)
+  | _ => (xs.map (arrive rt lt), ys.map (arrive lt rt))
+
+/-- Result of the operator under relation `r` (and `m` = the final `=` re-check, `ph` = whether
+the EOF row of EXCEPT is hashed), rendered as the observation the harness prints. -/
+def runWith (op : Op) (r m : Val → Val → Bool) (ph : Val → Bool) (xs ys : List Val) : Obs :=
+  match op with
+  | .groupBy => .pairs (groups r (xs ++ ys))
+  | .distinct | .union => .nats (sortNats ((firstOcc r (xs ++ ys)).map (canonPos (xs ++ ys))))
+  | .countDistinct => .num (countDistinct r (xs ++ ys))
+  | .intersect => .nats (sortNats ((distinctOf r (interAll r xs 0 ys)).map (canonPos xs)))
+  -- rowexec/rel.go buildSetOp: EXCEPT DISTINCT de-duplicates both children, then ExceptIter
+  | .except => .nats (sortNats (((exceptAll r ph (dedup r xs) ((dedup r ys).map (·.2)) true).map (·.1)).map (canonPos xs)))
+  | .inList => .nats ((xs.zipIdx.filter fun (v, _) => inTuple r ys v == 2).map (·.2))
+  | .inSub => .nats (xs.map (inSub r m ys))
+  | .hashJoin => .pairs (joinPairs r m xs ys)
+
+def emptyRowKey (v : Val) : Bool := elemKey none v == some []
+
+def implObs (e : Env) (op : Op) (lt rt : ColTy) (xs ys : List Val) : Obs :=
+  runWith op (relsOf e op lt rt ys).k (relsOf e op lt rt ys).s emptyRowKey
+    (inputs op lt rt xs ys).1 (inputs op lt rt xs ys).2
+
+def specObs (e : Env) (op : Op) (lt rt : ColTy) (xs ys : List Val) : Obs :=
+  runWith op (relsOf e op lt rt ys).s (relsOf e op lt rt ys).s (fun _ => false)
+    (inputs op lt rt xs ys).1 (inputs op lt rt xs ys).2
+
+/-! ### Regions: why Impl and Spec differ on a case -/
+
+def isNum : Val → Bool
+  | .int _ | .dec _ _ => true
+  | _ => false
+
+/-- Defect classes, in priority order. -/
+inductive Cause where
+  | nilText       -- the text '<nil>' and NULL have the same key
+  | emptyKey      -- EXCEPT: a row whose key is the key of the empty row
+  | collation     -- two strings are `=` under the collation but have different keys
+  | decimalScale  -- two numbers are `=` but their decimal texts differ (scale)
+  | elemRounded   -- IN list: elements are converted to the type of the first element
+  | boolInt       -- Go bool vs. integer
+  | other
+  deriving DecidableEq, Repr, Inhabited
+
+def Cause.name : Cause → String
+  | .nilText => "nil_text" | .emptyKey => "empty_key" | .collation => "collation"
+  | .decimalScale => "decimal_scale" | .elemRounded => "elem_rounded" | .boolInt => "bool_int"
+  | .other => "other"
+
+def Cause.all : List Cause :=
+  [.nilText, .emptyKey, .collation, .decimalScale, .elemRounded, .boolInt, .other]
+
+/-- Class of a pair of values on which "same key" and `=` disagree. -/
+def pairCause (op : Op) (a b : Val) : Cause :=
+  match a, b with
+  | .null, .str _ | .str _, .null => .nilText
+  | .str _, .str _ => .collation
+  | .bool _, _ | _, .bool _ => .boolInt
+  | a, b =>
+    if isNum a && isNum b then (if op == .inList then .elemRounded else .decimalScale)
+    else .other
+
+/-- All defect classes present in a case (COUNT(DISTINCT) never sees NULLs). -/
+def causes (e : Env) (op : Op) (lt rt : ColTy) (xs ys : List Val) : List Cause :=
+  let (xs', ys') := inputs op lt rt xs ys
+  let R := relsOf e op lt rt ys
+  let all := if op == .countDistinct then (xs' ++ ys').filter (· != .null) else xs' ++ ys'
+  let pairs := all.flatMap fun a => all.filterMap fun b =>
+    if R.k a b != R.s a b then some (pairCause op a b) else none
+  let ph := if op == .except && xs'.any emptyRowKey then [Cause.emptyKey] else []
+  ph ++ pairs
+
+/-- The region of a case: the operator and the first defect class in priority order. -/
+def region (e : Env) (op : Op) (lt rt : ColTy) (xs ys : List Val) : Option (Op × Cause) :=
+  let cs := causes e op lt rt xs ys
+  (Cause.all.find? (fun p => cs.contains p)).map fun c => (op, c)
+
+def regionName : Option (Op × Cause) → String
+  | some (op, c) => op.name ++ "_" ++ c.name
+  | none => "-"
 
 end Gms.HashEq
